@@ -497,12 +497,195 @@ inductive GuardE where
 	fmt.Fprintf(sb, "/-- DeleteIBCTransferRelation returns false when there is no record (`if !store.Has(key) { return false }`), true after deleting one -/\ndef deleteReportsMissing : Bool := %v\n", reports)
 	c.facts["C19.deleteReportsMissing"] = reports
 
+	// ---- IntermediateSender: the BODY (early returns in front of the hash, what is finally returned) ------------------
+	var early [][2]string
+	isRet, hashVar := "", ""
+	if isFn != nil {
+		for _, st := range isFn.Body.List {
+			switch x := st.(type) {
+			case *ast.IfStmt:
+				ast.Inspect(x, func(m ast.Node) bool {
+					if rs, ok := m.(*ast.ReturnStmt); ok && len(rs.Results) == 1 {
+						early = append(early, [2]string{firstLine(c.src(x.Cond)), firstLine(c.src(rs.Results[0]))})
+					}
+					return true
+				})
+			case *ast.AssignStmt:
+				if len(x.Rhs) == 1 && len(x.Lhs) >= 1 {
+					if ce, ok := x.Rhs[0].(*ast.CallExpr); ok && c.src(ce.Fun) == "address.Hash" {
+						hashVar = c.src(x.Lhs[0])
+					}
+				}
+			case *ast.ReturnStmt:
+				if len(x.Results) == 1 {
+					isRet = c.src(x.Results[0])
+				}
+			case *ast.SwitchStmt, *ast.TypeSwitchStmt, *ast.ForStmt, *ast.RangeStmt:
+				early = append(early, [2]string{"?" + firstLine(c.src(x)), "?"})
+			}
+		}
+	}
+	{
+		var items []string
+		for _, e := range early {
+			items = append(items, "("+leanStr(e[0])+", "+leanStr(e[1])+")")
+		}
+		fmt.Fprintf(sb, "/-- IntermediateSender: returns in front of the hash, as (condition, returned expression) -/\ndef intermediateSenderEarlyReturns : List (String × String) := %s\n", leanList(items))
+		c.facts["C19.intermediateSenderEarlyReturns"] = early
+	}
+	str("intermediateSenderHashVar", hashVar, "IntermediateSender: variable holding the result of address.Hash")
+	str("intermediateSenderReturn", isRet, "IntermediateSender: the final return expression")
+
+	// ---- error handling along the refund path: is every callee's error handed up to IBC core? -----------------------
+	mwT := c.findFunc("x/ibc/middleware", "IBCMiddleware", "OnTimeoutPacket")
+	mwA := c.findFunc("x/ibc/middleware", "IBCMiddleware", "OnAcknowledgementPacket")
+	kT := c.findFunc("x/ibc/middleware/keeper", "Keeper", "OnTimeoutPacket")
+	toBaseFn := c.findFunc("x/crosschain/keeper", "Keeper", "IBCCoinToBaseCoin")
+	_ = toBaseFn
+	type hopE struct {
+		name   string
+		fd     *ast.FuncDecl
+		suffix string
+	}
+	var chain []string
+	hookCtx := ""
+	for _, h := range []hopE{
+		{"IBCMiddleware.OnTimeoutPacket>Keeper.OnTimeoutPacket", mwT, "im.Keeper.OnTimeoutPacket"},
+		{"IBCMiddleware.OnAcknowledgementPacket>Keeper.OnAcknowledgementPacket", mwA, "im.Keeper.OnAcknowledgementPacket"},
+		{"Keeper.OnTimeoutPacket>refundPacketTokenHook", kT, ".refundPacketTokenHook"},
+		{"Keeper.OnAcknowledgementPacket>refundPacketTokenHook", mwAck, ".refundPacketTokenHook"},
+		{"refundPacketTokenHook>IBCCoinRefund", hook, ".IBCCoinRefund"},
+		{"IBCCoinRefund>IBCCoinToBaseCoin", coinRefund, ".IBCCoinToBaseCoin"},
+		{"IBCCoinRefund>IbcRefund", coinRefund, ".IbcRefund"},
+		{"IbcRefund>ConvertCoin", ibcRefund, ".ConvertCoin"},
+	} {
+		kind, ctxArg := c.c19ErrHandling(h.fd, h.suffix)
+		chain = append(chain, "("+leanStr(h.name)+", "+leanStr(kind)+")")
+		if h.suffix == ".IBCCoinRefund" {
+			hookCtx = ctxArg
+		}
+	}
+	fmt.Fprintf(sb, "/-- how each caller on the refund path treats its callee's error: `return` (returned directly), `checked` (`if err != nil { return err }`), `swallowed` (error branch returns something else), `ignored` -/\ndef refundErrorChain : List (String × String) := %s\n", leanList(chain))
+	c.facts["C19.refundErrorChain"] = chain
+	str("refundHookCtx", hookCtx, "the context refundPacketTokenHook hands to IBCCoinRefund: `ctx`, or `cache:<written|dropped>` for a CacheContext")
+
 	// IBCCoinToBaseCoin: calls in order
 	var toBase []string
 	if fd := c.findFunc("x/crosschain/keeper", "Keeper", "IBCCoinToBaseCoin"); fd != nil {
 		toBase = c.selCalls(fd.Body, "k")
 	}
 	strs("ibcCoinToBaseCalls", toBase, "IBCCoinToBaseCoin: keeper calls in order")
+}
+
+// c19ErrHandling classifies how fd treats the error of the call whose function ends with suffix, and names the
+// context argument of that call.
+func (c *ctxT) c19ErrHandling(fd *ast.FuncDecl, suffix string) (kind, ctxArg string) {
+	if fd == nil {
+		return "", ""
+	}
+	isCall := func(n ast.Node) *ast.CallExpr {
+		ce := c.findCall(n, suffix)
+		return ce
+	}
+	returnsErr := func(b *ast.BlockStmt) bool {
+		ok := false
+		ast.Inspect(b, func(m ast.Node) bool {
+			if rs, isR := m.(*ast.ReturnStmt); isR {
+				for _, r := range rs.Results {
+					if strings.Contains(c.src(r), "err") {
+						ok = true
+					}
+				}
+			}
+			return true
+		})
+		return ok
+	}
+	var walk func(list []ast.Stmt)
+	var call *ast.CallExpr
+	walk = func(list []ast.Stmt) {
+		for i, st := range list {
+			if kind != "" {
+				return
+			}
+			switch x := st.(type) {
+			case *ast.ReturnStmt:
+				if ce := isCall(x); ce != nil {
+					kind, call = "return", ce
+				}
+			case *ast.ExprStmt:
+				if ce := isCall(x); ce != nil {
+					kind, call = "ignored", ce
+				}
+			case *ast.AssignStmt:
+				if ce := isCall(x); ce != nil {
+					call = ce
+					kind = "unchecked"
+					if i+1 < len(list) {
+						switch nx := list[i+1].(type) {
+						case *ast.IfStmt:
+							if strings.Contains(c.src(nx.Cond), "err != nil") {
+								if returnsErr(nx.Body) {
+									kind = "checked"
+								} else {
+									kind = "swallowed"
+								}
+							}
+						case *ast.ReturnStmt:
+							if strings.Contains(c.src(nx), "err") {
+								kind = "checked"
+							}
+						}
+					}
+				}
+			case *ast.IfStmt:
+				if x.Init != nil {
+					if ce := isCall(x.Init); ce != nil {
+						call = ce
+						if strings.Contains(c.src(x.Cond), "err != nil") && returnsErr(x.Body) {
+							kind = "checked"
+						} else {
+							kind = "swallowed"
+						}
+						continue
+					}
+				}
+				walk(x.Body.List)
+				if eb, ok := x.Else.(*ast.BlockStmt); ok {
+					walk(eb.List)
+				}
+			case *ast.SwitchStmt:
+				walk(x.Body.List)
+			case *ast.TypeSwitchStmt:
+				walk(x.Body.List)
+			case *ast.CaseClause:
+				walk(x.Body)
+			case *ast.BlockStmt:
+				walk(x.List)
+			}
+		}
+	}
+	walk(fd.Body.List)
+	if call != nil && len(call.Args) > 0 {
+		a := c.src(call.Args[0])
+		ctxArg = a
+		// a variable that comes from `….CacheContext()`?
+		writeFn := ""
+		ast.Inspect(fd.Body, func(m ast.Node) bool {
+			as, ok := m.(*ast.AssignStmt)
+			if ok && len(as.Lhs) == 2 && len(as.Rhs) == 1 && c.src(as.Lhs[0]) == a && strings.HasSuffix(c.src(as.Rhs[0]), ".CacheContext()") {
+				writeFn = c.src(as.Lhs[1])
+			}
+			return true
+		})
+		if writeFn != "" {
+			ctxArg = "cache:dropped"
+			if writeFn != "_" && c.findCall(fd.Body, writeFn) != nil {
+				ctxArg = "cache:written"
+			}
+		}
+	}
+	return kind, ctxArg
 }
 
 func firstLine(s string) string {
